@@ -444,6 +444,39 @@ def rule_R7(text, cfg, counts):
         counts["R7"] = counts.get("R7", 0) + 1
 
 
+def rule_R14(text, cfg, counts):
+    """drop elaboration for a Drop type (opt-in per block: //@ r14 fn=F args=A):
+         let _ = E;          => let vp_dropped_k = E; F(vp_dropped_k, A);     (a wildcard pattern does not bind: the value is
+                                                                              dropped at the end of the statement)
+         drop(x) / std::mem::drop(x) / core::mem::drop(x) => F(x, A)
+       a named binding (`let _guard = E;`) lives to the end of its scope and is left alone."""
+    fn, args = cfg["fn"], cfg.get("args", "")
+    k = 0
+    while True:
+        m_ = mask(text)
+        m = re.search(r"\blet\s+_\s*=", m_)
+        if not m:
+            break
+        semi = find_at_depth0(m_, m.end(), len(m_), [";"])
+        if semi < 0:
+            raise AnchorLost("R14: no statement end after `let _ =`")
+        k += 1
+        expr = text[m.end():semi]
+        rep = "let vp_dropped_%d =%s; %s(vp_dropped_%d%s);" % (k, expr, fn, k, (", " + args) if args else "")
+        text = text[:m.start()] + rep + text[semi + 1:]
+        counts["R14"] = counts.get("R14", 0) + 1
+    while True:
+        m_ = mask(text)
+        m = re.search(r"(?<![\w.])(?:(?:std|core)::mem::)?drop\s*\(", m_)
+        if not m:
+            break
+        c = match_close(m_, m.end() - 1)
+        inner = text[m.end():c]
+        text = text[:m.start()] + "%s(%s%s)" % (fn, inner.strip(), (", " + args) if args else "") + text[c + 1:]
+        counts["R14"] = counts.get("R14", 0) + 1
+    return text
+
+
 def auto_rules(text, mode, counts):
     text = rule_R1(text, counts)
     text = rule_R1f(text, counts)
@@ -482,6 +515,7 @@ class Block:
         self.sigrewrites = []
         self.specrewrites = []
         self.r7 = None
+        self.r14 = None
         self.head = []
         self.tail = []
 
@@ -581,6 +615,9 @@ def parse_template(tpl_text, base_dir=None, hashes=None):
         elif word == "r7":
             cur.r7 = parse_attrs(rest)
             target = None
+        elif word == "r14":
+            cur.r14 = parse_attrs(rest)
+            target = None
         elif word in ("rewrite", "sigrewrite", "specrewrite"):
             m = re.match(r'(\S+)\s+"((?:[^"\\]|\\.)*)"\s*=>\s*"((?:[^"\\]|\\.)*)"\s*$', rest)
             if not m:
@@ -612,6 +649,8 @@ def weave_fn(it, blk, counts, rewrite_log):
     body = apply_rewrites(body, blk.rewrites, counts, rewrite_log)
     if blk.r7:
         body = rule_R7(body, blk.r7, counts)
+    if blk.r14:
+        body = rule_R14(body, blk.r14, counts)
     if blk.attrs.get("rename"):
         sig = re.sub(r"\bfn\s+%s\b" % re.escape(it["name"]), "fn " + blk.attrs["rename"], sig, count=1)
     # name the return value
@@ -812,6 +851,8 @@ def process_block(blk, emitted_items):
         sl = apply_rewrites(sl, blk.rewrites, counts, rewrite_log)
         if blk.r7:
             sl = rule_R7(sl, blk.r7, counts)
+        if blk.r14:
+            sl = rule_R14(sl, blk.r14, counts)
         sl = apply_loops(sl, blk.loops)
         sl = apply_anchor_inserts(sl, blk.inserts)
         head = "\n".join(blk.head)
